@@ -9,7 +9,7 @@ from vlib import runner, peg, sut, diff
 from vlib.runner import Check, Result, h64
 
 WRAPPERS = ['seq1', 'optseq', 'right', 'failchoice', 'let', 'where', 'apply', 'sep', 'plus', 'opt', 'expect', 'mix']
-INNERS = ['lit', 'ref', 'call', 'cls', 'param', 'bound', 'count']
+INNERS = ['lit', 'ref', 'call', 'cls', 'param', 'bound', 'count', 'letcount', 'letpy', 'letwhere']
 
 
 def wrap_once(kind, x):
@@ -86,6 +86,15 @@ def build(inner, wrapper, depth, ign, named, seed):
     elif inner == 'count':
         core, val = ('rep', ('lit', 'T'), 'n', 'n'), ['T']
         text = '1T'
+    elif inner == 'letcount':
+        # binding and use TOGETHER at the bottom: the let still fits where its body may not
+        core, val = ('let', 'n', ('apply', ('rx', '[0-9]'), ('py', 'int')), ('rep', ('lit', 'T'), 'n', 'n')), ['T']
+        text = '1T'
+    elif inner == 'letpy':
+        core, val = ('let', 'n', ('lit', 'T'), ('py', 'n')), 'T'
+    elif inner == 'letwhere':
+        core, val = ('let', 'n', ('lit', 'T'), ('where', ('ref', 'R'), ('py', 'lambda v: v == n'))), 'T'
+        text = 'TT'
     e = core
     v = val
     for k in layers:
@@ -102,7 +111,7 @@ def build(inner, wrapper, depth, ign, named, seed):
     ignores = [(None, ('lit', ' '))] if ign else []
     if ign:
         text = text + '  '
-        if inner not in ('count',):
+        if inner not in ('count', 'letcount'):
             text = ' ' + text
     g = peg.G(rules, ignores=ignores, header=(sut.fresh_name('vfc17_') if named else None))
     return g, text, v
@@ -136,7 +145,7 @@ def run_case(case):
                     'got': [got[0]] + [str(x)[:160] for x in got[1:]], 'case': case, 'spilled': info['spilled'],
                     'grammar_tail': desc[-200:] if len(desc) < 2000 else '...'}, info
         # a failing input must fail cleanly through every layer (also through helper functions)
-        bad_text = 'X' if case['inner'] != 'count' else '1X'
+        bad_text = {'count': '1X', 'letcount': '1X', 'letwhere': 'TX'}.get(case['inner'], 'X')
         got2 = sut.run(mod, None, bad_text, budget=8.0)
         if got2[0] not in ('FAIL', 'PARTIAL'):
             return {'bucket': 'nesting-failing-input:%s' % (got2[0] if got2[0] != 'EXC' else 'EXC:' + got2[1]),
